@@ -1,6 +1,7 @@
 package model
 
 import (
+	"encoding/hex"
 	"encoding/json"
 	"fmt"
 	"math"
@@ -8,6 +9,7 @@ import (
 	"strconv"
 	"strings"
 	"time"
+	"unicode/utf8"
 )
 
 // F64 serialises every double exactly (NaN, ±Inf, -0 included).
@@ -94,6 +96,39 @@ type Val struct {
 	Fn string  `json:"fn,omitempty"` // function value: name of a harness function
 
 	idx map[string]int // key index for large maps (built lazily, never serialised)
+}
+
+// A string that is not well-formed UTF-8 (a host may hand over any Go string) would be mangled by
+// encoding/json; it is written as hex under "sx" instead, so that replay files are exact.
+type plainVal Val
+
+func (v *Val) MarshalJSON() ([]byte, error) {
+	if utf8.ValidString(v.S) {
+		return json.Marshal((*plainVal)(v))
+	}
+	return json.Marshal(struct {
+		*plainVal
+		S  string `json:"s,omitempty"`
+		SX string `json:"sx"`
+	}{plainVal: (*plainVal)(v), SX: hex.EncodeToString([]byte(v.S))})
+}
+
+func (v *Val) UnmarshalJSON(b []byte) error {
+	aux := struct {
+		*plainVal
+		SX string `json:"sx"`
+	}{plainVal: (*plainVal)(v)}
+	if err := json.Unmarshal(b, &aux); err != nil {
+		return err
+	}
+	if aux.SX != "" {
+		raw, err := hex.DecodeString(aux.SX)
+		if err != nil {
+			return err
+		}
+		v.S = string(raw)
+	}
+	return nil
 }
 
 func VNum(x float64) *Val    { return &Val{T: Num, N: F64(x)} }
